@@ -370,7 +370,7 @@ fn pair(v: u64) -> Value {
 /// Session projection through serde (no hook needed); `{}`-like neutral record when not joined.
 pub fn sess_json(s: Option<&Session>) -> Value {
     match s {
-        None => json!({"has": 0, "nwk": [], "app": [], "addr": [0,0,0,0], "up": [0,0], "down": [], "adrcnt": 0,
+        None => json!({"has": 0, "nwk": [], "app": [], "addr": [0,0,0,0], "up": [0,0], "down": [], "adrcnt": [0,0],
                        "pending": [], "ackowed": 0, "confirmed": 0}),
         Some(s) => {
             let v = serde_json::to_value(s).expect("session serialises");
@@ -407,7 +407,7 @@ pub fn sess_json(s: Option<&Session>) -> Value {
                 "has": 1, "nwk": bytes(&nwk), "app": bytes(&app), "addr": bytes(&addr),
                 "up": pair(num(&v["fcnt_up"])),
                 "down": if v["fcnt_down"].is_null() { json!([]) } else { pair(num(&v["fcnt_down"])) },
-                "adrcnt": num(&v["adr_ack_cnt"]).min(1_000_000_000),
+                "adrcnt": pair(num(&v["adr_ack_cnt"])),
                 "pending": bytes(&pdata[..plen.min(pdata.len())]),
                 "ackowed": v["uplink"]["confirmed"].as_bool().unwrap_or(false) as u8,
                 "confirmed": v["confirmed"].as_bool().unwrap_or(false) as u8,
